@@ -267,7 +267,7 @@ func (P *Prog) checkNilIffEmpty(r *Result) {
 				}
 				nW++
 				switch {
-				case fname(fn) == ct.ctor && isNilConst(st.Val):
+				case fname(topLevel(fn)) == ct.ctor && isNilConst(st.Val): // the constructor, or a closure it hands to a helper
 				case fn.Name() == "Add" && fn.Signature.Recv() != nil && sameNamed(namedOf(fn.Signature.Recv().Type()), named):
 				default:
 					bad = append(bad, fmt.Sprintf("%s writes %s.%s at %s", fname(fn), ct.n, ct.field, P.ipos(in)))
@@ -382,4 +382,12 @@ func (P *Prog) checkNilIffEmpty(r *Result) {
 	}
 	r.floor("C02/nil-iff-empty", 24)
 	_ = token.ADD
+}
+
+// topLevel: the named function a closure is nested in (fn itself when it is not a closure).
+func topLevel(fn *ssa.Function) *ssa.Function {
+	for fn.Parent() != nil {
+		fn = fn.Parent()
+	}
+	return fn
 }
